@@ -15,7 +15,7 @@ from concurrent.futures import ThreadPoolExecutor
 
 VERIF = os.path.dirname(os.path.dirname(os.path.abspath(__file__)))
 REPO = os.environ.get("VERIF_REPO", "/repo")
-COQ = os.path.join(VERIF, "coq")
+COQ = os.environ.get("VERIF_COQ", os.path.join(VERIF, "coq"))  # VERIF_COQ: development copy (dev tools only)
 BUILD = os.path.join(VERIF, "build" if REPO == "/repo" else "build/alt")
 HARNESS = os.path.join(VERIF, "harness")
 sys.path.insert(0, os.path.join(VERIF, "tools"))
@@ -336,6 +336,8 @@ def write_replay(prop, kind, case, extra):
     rec = {"property": prop, "kind": kind}
     if case:
         rec.update({"suite": case["suite"], "in": case["in"], "impl_out": case["out"], "tags": case.get("tags", []), "desc": case.get("desc", "")})
+        if case.get("gen"):
+            rec["gen"] = case["gen"]
     rec.update(extra)
     rec["replay_cmd"] = "python3 tools/vcheck.py --replay %s" % path
     with open(path, "w") as f:
